@@ -248,12 +248,18 @@ def rangeResults (p : RangeProof) (name : String) : Option Int :=
       | some i => (p.ds[i]?).join
       | none => none
 
-/-- `ProofStructure.CommitmentsFromProof(pk, p, challenge)`. -/
+/-- `ProofStructure.CommitmentsFromProof(pk, p, challenge)`. The list starts with the statement
+    (`ProofStructure.statement(p.Cs)`: the commitments `C_i`, then `k`, `a`, `sign`, `l_d` of the
+    structure), followed by the commitment of `mCorrect` and one per `cRep[i]`. Go appends the
+    pointers `p.Cs` as they are; a nil `C_i` (refused by `verifyProofStructure` before this is
+    called) would be dereferenced only when the list is hashed, hence after the reconstruction:
+    the model dereferences them last. -/
 def RangeStructure.commitmentsFromProof (s : RangeStructure) (pk : PublicKey) (p : RangeProof)
     (challenge : Int) : GoM (List Int) := do
   let m ← s.mCorrect.commitmentFromProof pk.n challenge (rangeBases pk p) (rangeResults p)
   let cs ← s.cRep.mapM (fun c => c.commitmentFromProof pk.n challenge (rangeBases pk p) (rangeResults p))
-  pure (m :: cs)
+  let stmt ← p.cs.mapM (deref "Cs[i]")
+  pure (stmt ++ [s.k, (s.a : Int), s.sign, (s.ld : Int)] ++ m :: cs)
 
 /-- `Proof.ProvesStatement(sign, factor, bound)` (factor is a Go `uint`: 64 bits). -/
 def RangeProof.provesStatement (p : RangeProof) (sign : Int) (factor : Nat) (bound : Int) : Bool :=
